@@ -231,6 +231,7 @@ def switches : List String → Nat
 def judgeIso (lines : Array String) : Verdict := Id.run do
   let mut cfg : Option (String × Nat × Nat × Bool × List String) := none
   let mut pts : List (Pt × GroupID) := []
+  let mut gps : List (GPoint × String) := []   -- (point as grouping sees it, its structured key)
   let mut full : Option (List (ObsMsg × String)) := none
   let mut solo : List (String × List ObsMsg) := []
   for l in lines do
@@ -249,6 +250,7 @@ def judgeIso (lines : Array String) : Verdict := Id.run do
       let some v := parseV fields | return .badop l
       let some time := time.toInt? | return .badop l
       pts := pts ++ [({ name := name, key := gkey b name dims tags, v := v, time := time }, toGroupID b name tags dims)]
+      gps := gps ++ [({ byName := b, name := name, tags := tags, dims := dims }, gkey b name dims tags)]
     | ["full"] =>
       match parseRun o with
       | .ok ms => full := some ms
@@ -267,42 +269,115 @@ def judgeIso (lines : Array String) : Verdict := Id.run do
     return .badop s!"solo groups {solo.map (·.1)} are not the groups of the input {distinctKeys keys}"
   -- the property, on what the implementation emitted
   let fullMsgs := fullR.map (·.1)
+  let ptsOnly := pts.map (·.1)
+  let modelFull : Option (List String) := match modelKind? kind p1 p2 with
+    | some mk => if modelApplies mk ptsOnly then some (runModel mk (pts.map (fun pg => Item.point pg.2 pg.1))) else none
+    | none => none
   if !isolationHolds fullMsgs solo then
-    let g := match solo.find? (fun gs => !isolatedFor fullMsgs gs.1 gs.2) with
-      | some gs => gs.1 | none => "output-for-a-group-without-input"
+    -- recorded deviation: groups whose ids collide (devDelimiter) share one receiver; every group that is NOT
+    -- isolated must be one of them, and for a modelled node the output must be what the model predicts
+    let colliding := gps.filterMap (fun (p, k) =>
+      if gps.any (fun (q, k') => k' != k && devDelimiter p q) then some k else none)
+    let failing := (solo.filter (fun gs => !isolatedFor fullMsgs gs.1 gs.2)).map (·.1)
+    let foreign := fullMsgs.any (fun m => !(solo.any (fun gs => gs.1 == m.key)))
+    let predicted := match modelFull with | some m => m == fullR.map (·.2) | none => true
+    if !failing.isEmpty && failing.all (fun g => colliding.contains g) && !foreign && predicted then
+      return .known "groupid-delimiter-collision" s!"node {kind}: groups {failing} share a receiver because their ids collide"
+    let g := failing.headD "output-for-a-group-without-input"
     return .specfail "isolation" s!"node {kind}: group {g}: full run filtered to the group differs from the run on the group alone"
   -- the tie
   let mut brs : List String := [kind]
   if (distinctKeys keys).length ≥ 3 then brs := addBr brs "groups>=3"
   if switches keys ≥ 3 then brs := addBr brs "interleaved"
   if (distinctKeys (pts.map (·.2))).length < (distinctKeys keys).length then brs := addBr brs "id-collision-in-run"
-  let ptsOnly := pts.map (·.1)
   if ptsOnly.any (fun p => p.v == .missing) then brs := addBr brs "field-missing"
   let kinds := distinctKeys (ptsOnly.filterMap (fun p => p.v.kind?.map (fun k => reprStr k)))
   if kinds.length ≥ 2 then brs := addBr brs "mixed-field-types"
-  match modelKind? kind p1 p2 with
-  | none => brs := addBr brs "relational-only"
-  | some mk =>
-    if modelApplies mk ptsOnly then
-      let items := pts.map (fun pg => Item.point pg.2 pg.1)
-      let m := runModel mk items
-      let o := fullR.map (·.2)
-      if m != o then return .mismatch s!"node {kind} {p1} {p2}: model {m} observed {o}"
-      brs := addBr brs "modelled"
-      match mk with
-      | .iql meth =>
-        if ptsOnly.any (fun p => match p.v.kind? with | some k => (determine meth k).isNone | none => false) then
-          brs := addBr brs "iql-unsupported-kind"
-        if switches (ptsOnly.map (fun p => s!"{p.key}|{p.time}")) < ptsOnly.length - 1 then brs := addBr brs "iql-equal-time-run"
-        if m.any (fun t => t.endsWith "|i:0") then brs := addBr brs "iql-emit-zero"
-      | .alert _ =>
-        if m.any (fun t => t.endsWith "|s:OK") then brs := addBr brs "alert-recovery"
-      | .statecount _ =>
-        if m.length < ptsOnly.length then brs := addBr brs "statecount-eval-error-drop"
-        if m.any (fun t => t.endsWith "|i:-1") then brs := addBr brs "statecount-reset"
-      | _ => pure ()
-    else brs := addBr brs "model-not-applicable"
+  match modelKind? kind p1 p2, modelFull with
+  | none, _ => brs := addBr brs "relational-only"
+  | some _, none => brs := addBr brs "model-not-applicable"
+  | some mk, some m =>
+    let o := fullR.map (·.2)
+    if m != o then return .mismatch s!"node {kind} {p1} {p2}: model {m} observed {o}"
+    brs := addBr brs "modelled"
+    match mk with
+    | .iql meth =>
+      if ptsOnly.any (fun p => match p.v.kind? with | some k => (determine meth k).isNone | none => false) then
+        brs := addBr brs "iql-unsupported-kind"
+      if switches (ptsOnly.map (fun p => s!"{p.key}|{p.time}")) < ptsOnly.length - 1 then brs := addBr brs "iql-equal-time-run"
+    | .alert _ =>
+      if m.any (fun t => t.endsWith "|s:OK") then brs := addBr brs "alert-recovery"
+    | .statecount _ =>
+      if m.length < ptsOnly.length then brs := addBr brs "statecount-eval-error-drop"
+      if m.any (fun t => t.endsWith "|i:-1") then brs := addBr brs "statecount-reset"
+    | _ => pure ()
   return .ok ((distinctKeys keys).length ≥ 2 && switches keys ≥ 2 && !fullR.isEmpty) brs
+
+/-! ### dmx cases: the real groupedConsumer with the recording receiver -/
+
+def judgeDmx (lines : Array String) : Verdict := Id.run do
+  let mut items : List (Item Nat) := []
+  let mut full : Option (List ObsMsg) := none
+  let mut solo : List (String × List ObsMsg) := []
+  let mut brs : List String := ["dmx"]
+  let parseRecs (toks : List String) : Except String (List ObsMsg) :=
+    match toks with
+    | ["-"] => .ok []
+    | _ =>
+      if toks.all (fun t => (t.splitOn "|").length == 4) && !toks.isEmpty then
+        .ok (toks.map (fun t => { key := (t.splitOn "|").headD "", tok := t }))
+      else .error (toks.headD "empty")
+  for l in lines do
+    let (opT, o) := splitObs (tokens l)
+    match opT with
+    | ["dmx"] => pure ()
+    | ["it", kind, g] =>
+      let some g := unesc g | return .badop l
+      match kind with
+      | "point" => items := items ++ [.point g 0]; brs := addBr brs "dmx-point"
+      | "barrier" => items := items ++ [.barrier g 0]; brs := addBr brs "dmx-barrier"
+      | "delete" => items := items ++ [.delete g 0]; brs := addBr brs "dmx-delete"
+      | _ => return .badop l
+    | ["it", kind, g, n] =>
+      let some g := unesc g | return .badop l
+      let some n := n.toNat? | return .badop l
+      match kind with
+      | "buffered" => items := items ++ [.buffered g n]; brs := addBr brs "dmx-buffered"
+      | "batch" => items := items ++ [.batch g 0 (List.replicate n 0) 0]; brs := addBr brs (if n == 0 then "dmx-batch-empty" else "dmx-batch")
+      | _ => return .badop l
+    | ["full"] =>
+      match parseRecs o with
+      | .ok ms => full := some ms
+      | .error st => return .specfail "isolation" s!"groupedConsumer full run status {st}"
+    | ["solo", g] =>
+      match parseRecs o with
+      | .ok ms => solo := solo ++ [(g, ms)]
+      | .error st => return .specfail "isolation" s!"groupedConsumer solo run of {g} status {st}"
+    | _ => return .badop l
+  let some fullR := full | return .badop "no full line"
+  let keys := items.map (fun it => esc it.group)
+  if distinctKeys keys != solo.map (·.1) then return .badop "solo groups are not the groups of the input"
+  if !isolationHolds fullR solo then
+    return .specfail "isolation" s!"groupedConsumer: a group's calls on the full stream differ from its calls alone"
+  let m := (runNode recNode () items).map (fun go => s!"{esc go.1}|{go.2.call}|{go.2.n}|{go.2.first}")
+  if m != fullR.map (·.tok) then return .mismatch s!"groupedConsumer: model {m} observed {fullR.map (·.tok)}"
+  -- structural branches of Demux.step
+  let rec walk : List (Item Nat) → List String → List String → List String
+    | [], _, b => b
+    | it :: rest, live, b =>
+      let g := it.group
+      match it with
+      | .delete _ _ =>
+        walk rest (live.filter (· != g)) (addBr b (if live.contains g then "delete-existing" else "delete-absent"))
+      | _ => walk rest (if live.contains g then live else g :: live) (addBr b (if live.contains g then "group-hit" else "group-create"))
+  brs := walk items [] brs
+  -- a group deleted and created again
+  let rec recreated : List (Item Nat) → List String → Bool
+    | [], _ => false
+    | .delete g _ :: rest, dead => recreated rest (g :: dead)
+    | it :: rest, dead => dead.contains it.group || recreated rest dead
+  if recreated items [] then brs := addBr brs "recreate-after-delete"
+  return .ok ((distinctKeys keys).length ≥ 2 && switches keys ≥ 2) brs
 
 def judge (_id : String) (lines : Array String) : Verdict :=
   if lines.isEmpty then .badop "empty case" else
@@ -310,6 +385,7 @@ def judge (_id : String) (lines : Array String) : Verdict :=
   if first == "gid" then judgeGid lines
   else if first == "gb" then judgeGb lines
   else if first == "node" then judgeIso lines
+  else if first == "dmx" then judgeDmx lines
   else .badop s!"unknown case kind {first}"
 
 end Kap.C06.Drv
